@@ -251,6 +251,15 @@ func c20Run(w *W, removals bool) {
 		}
 	}
 	checkSeq("quiescence-1", raceClose)
+	if !raceClose {
+		// nothing has closed the container or ended a context yet: a blocking
+		// iterator waits for more, whatever was removed under it
+		for i, r := range its {
+			if r.blocking && r.state == 2 {
+				w.Violate("ended-while-open", "ended-while-open:"+v.name, "blocking iterator %d ended with %v (having yielded %v) although the container is open and its context is live", i, r.err, r.yielded)
+			}
+		}
+	}
 	for _, r := range its {
 		if !r.blocking && r.state != 2 {
 			w.Violate("non-blocking-iterator-blocked", "non-blocking-iterator-blocked:"+v.name, "non-blocking iterator still running at quiescence (%s)", simrt.SiteOf(r.task))
